@@ -34,6 +34,17 @@ def nucIndex (n : Nat) (bounds : Nat → α) (r : α) : Nat :=
   let a := argmaxFirst (fun i => decide (r < bounds i)) (n+1)
   if a = 0 then n - 1 else a - 1
 
+/-- the class of a radius found by SCANNING the classes from the left: the first class `k` whose upper boundary lies
+above the radius (`r < bounds (k+1)`), the last class when no upper boundary does.  This is the property-side index
+(class `[b_k, b_{k+1})`, lower boundary included, upper excluded; a radius at/below the first boundary → class 0, at/above
+the last boundary → last class); `nucIndex` above is what the code computes (`argmax(...) - 1` with Python's index wrap
+and the guard).  Props/C07 proves the two equal on every strictly increasing grid (`nucIndex_eq_nucIdx`); the driver
+evaluates both (`pbm.nucidx`) against getdXdtEuler AND correctdXdtEuler on boundary-exact radii. -/
+def nucIdx (n : Nat) (bounds : Nat → α) (r : α) : Nat :=
+  match (List.range n).find? (fun k => decide (r < bounds (k+1))) with
+  | some k => k
+  | none => n - 1
+
 /-- dXdt[i] = netFlux[i] - netFlux[i+1], plus the nucleation rate in class `nucIdx`. -/
 def dXdt (nf : Nat → α) (nucIdx : Nat) (nucRate : α) (i : Nat) : α :=
   (nf i - nf (i+1)) + (if i = nucIdx then nucRate else 0)
